@@ -141,7 +141,7 @@ def _api_job(job):
     pid = units.labelling(n, "sparse", rnd)
     obs = []
     for order in units.orders_for(n, rnd, 3):
-        obs.append(units.run_api(pop, list(order), pid, "2023-01-01", {0: 4, 1: 2, 2: 9}))
+        obs.append(units.run_api(pop, list(order), pid, "2023-01-01", {h: (5 * h + 4) % 17 for h in range(12)}))
     return {"pop": pop, "obs": obs}
 
 
